@@ -53,7 +53,7 @@ func vh_C19_L1_rto_bounds() {
 func vh_C19_L2_backoff() {
 	rtoMax := vRTOMax()
 	rto := nondetF64()
-	vassume(vFinite(rto) && rto >= 1 && rto <= rtoMax)
+	vassume(vFinite(rto) && rto >= 1 && rto <= 1e6) // also an RTO above the configured maximum (the initial RTO with a small RTO.max)
 	var n uint
 	if vtier() == 0 {
 		n = []uint{0, 1, 7, 30, 31, 33}[vPick(6)]
@@ -63,7 +63,7 @@ func vh_C19_L2_backoff() {
 	cur := calculateNextTimeout(rto, n, rtoMax)
 	next := calculateNextTimeout(rto, n+1, rtoMax)
 	vassert(cur <= rtoMax, "back-off never exceeds RTO.max")
-	vassert(cur >= rto, "back-off never below the base RTO")
+	vassert(cur >= rto || rto > rtoMax, "back-off never below the base RTO")
 	vassert(next >= cur, "back-off is non-decreasing in the expiry count")
 	if n < 31 {
 		pow := float64(uint64(1) << n)
@@ -210,10 +210,7 @@ func vh_C19_L3_armed_duration() {
 	rtoMaxMs := []int{2000, 3000, 4000, 1000, 500}[vPick(5)] // any configured maximum, also one at or below the protocol minimum
 	t := newRTXTimer(1, obs, 0, float64(rtoMaxMs))
 	rtoMs := 1000 + vPick(3)*500
-	if rtoMs > rtoMaxMs {
-		rtoMs = rtoMaxMs // the RTO manager never hands out more than the configured maximum
-	}
-	vassert(t.start(float64(rtoMs)), "start")
+	vassert(t.start(float64(rtoMs)), "start") // the initial RTO may lie above a small configured maximum: the cap still holds
 	want := rtoMs
 	for i := 0; i < 4; i++ {
 		if want > rtoMaxMs {
